@@ -75,7 +75,15 @@ fn check_dups(rules: &[(usize, Op, u8)]) -> Option<(String, String)> {
     (Some(i), Err((idx, line, m))) => {
       let name = names[i].clone();
       let want_line = 1 + doc[..starts[i]].matches('\n').count();
-      if !m.contains(&format!("\"{}\"", name)) || !m.contains("already defined") {
+      // "the error names that rule": the name must appear in the message as a word of its own; the wording
+      // around it is not part of the property
+      let named = m.match_indices(name.as_str()).any(|(i, _)| {
+        let before = m[..i].chars().next_back();
+        let after = m[i + name.len()..].chars().next();
+        let idch = |c: char| c.is_ascii_alphanumeric() || matches!(c, '-' | '_' | '@' | '.' | '$');
+        !before.is_some_and(idch) && !after.is_some_and(idch)
+      });
+      if !named {
         Some((doc, format!("duplicate of `{}` at rule #{} reported as: {}", name, i, m)))
       } else if idx != starts[i] || line != want_line {
         Some((doc, format!("duplicate of `{}` is reported at index {} line {}, the later definition starts at index {} line {}", name, idx, line, starts[i], want_line)))
